@@ -360,6 +360,19 @@ mod app_pool {
 /// public API. Items: r<i> replicate, p<i>:<prio> replicate_with_priority, b<ij> bundle, ce<i> client event, ct<i> client
 /// trigger, se<i> server event, st<i> server trigger, ie<i> independent event, it<i> independent trigger.
 /// Answer: `<hash> <model items>` where the model items spell the same registrations (incl. the plugin's own) for the Coq model.
+/// `chan_kinds`: the channel kinds a default app (RepliconPlugins, default protocol check) declares to the backend:
+/// `C=<kind>,<kind>,..;S=<kind>,..` (client channels: acknowledgements, the protocol hash; server channels: updates, mutations,
+/// the mismatch notification)
+fn chan_kinds() -> String {
+    use bevy_replicon::prelude::*;
+    let mut app = App::new();
+    app.add_plugins((MinimalPlugins, RepliconPlugins));
+    app.finish();
+    let ch = app.world().resource::<RepliconChannels>();
+    let f = |l: &[Channel]| l.iter().map(|c| format!("{c:?}")).collect::<Vec<_>>().join(",");
+    format!("C={};S={}", f(ch.client_channels()), f(ch.server_channels()))
+}
+
 fn proto_app(args: &[&str]) -> String {
     use app_pool::*;
     use bevy_replicon::prelude::*;
@@ -476,6 +489,7 @@ fn handle(cmd: &str, args: &[&str]) -> String {
         "tcmp" => tcmp(args),
         "graph" => graph(args),
         "proto_app" => proto_app(args),
+        "chan_kinds" => chan_kinds(),
         "scene" => scene_kernel::scene_cmd(args),
         "vis" => vis(args),
         "cond" => cond(args),
